@@ -352,6 +352,8 @@ def matrix_cases(draw, tier):
     hops = [draw(variants(dtype)) for _ in range(nhops)]
     for v in hops:
         v["io"] = draw(st.sampled_from(["string", "string", "stream"]))
+        # what is handed to the writer: the matrix itself or a fresh copy of it (copy.copy shares the sequences)
+        v["via_copy"] = draw(st.sampled_from([None, None, None, None, "shallow", "shallow", "ctor", "clone1"]))
     routes = [r for r in ROUTES if not (r == "parse_nexus" and dtype not in SUPPORT["nexus"])
               and not (r == "parse_fasta" and dtype not in SUPPORT["fasta"])]
     kind = draw(st.sampled_from(routes))
@@ -411,7 +413,7 @@ def matrix_cases(draw, tier):
             route["spelled"] = [None if t["row"] is None else
                                 [draw(st.sampled_from(spellings(dtype, s))) for s in t["row"]] for t in taxa]
     if kind == "copy":
-        route["how"] = draw(st.sampled_from(["ctor", "ctor_newns", "deepcopy", "scoped", "clone0", "clone1", "clone2"]))
+        route["how"] = draw(st.sampled_from(["ctor", "ctor_newns", "deepcopy", "scoped", "clone0", "clone0", "clone0", "clone1", "clone2"]))
     if kind == "concat":
         route["cuts"] = cut_points(draw, ncols, 3) or [1]
     if kind == "export":
@@ -771,6 +773,15 @@ def do_hop(ctx, dtype, m, want, v, extras, info, tag):
     name = variant_name(v)
     fmt = v["fmt"]
     info = dict(info, cells=(fmt == "nexml" and not v["seqs"]))
+    how = v.get("via_copy")
+    if how:
+        ctx.cls("hop_writes_copy:" + how)
+        mc = lib_call(ctx, "copy_before_write", "C09.copy_before_write:" + how, info, None,
+                      {"shallow": copy.copy, "ctor": cls, "clone1": lambda x: x.clone(1)}[how], m)
+        gotc = read_rows(dtype, mc)
+        verdict(ctx, type(mc) is cls and rows_equal(dtype, gotc, want), "copy_rows_equal", "C09.copy_rows:" + how, info,
+                None, lambda: "%s: %s copy holds %s want %s" % (tag, how, show(gotc), show(want)))
+        m = mc
     if v.get("io") == "stream":
         sio = io.StringIO()
         lib_call(ctx, "write_" + fmt, "C09.write:" + name, info, fmt, m.write, file=sio, schema=fmt, **wk)
@@ -992,11 +1003,30 @@ def dataset_cases(draw):
         # "none": a namespace no tree list / matrix of the data set refers to; "removed": its matrix is added to the
         # data set and taken out again before writing
         content = draw(st.sampled_from(["trees", "matrix", "matrix", "both", "both", "both", "none", "none", "removed"]))
-        n = draw(st.integers(1 if content in ("matrix", "none", "removed") else 2, 5))
-        shared = draw(st.integers(0, 3)) == 0  # label lists of different namespaces may overlap
-        labels = draw(dataset_labels(n, "" if shared else "n%d" % i, draw(st.integers(0, 2)) == 0))
+        nmin = 1 if content in ("matrix", "none", "removed") else 2
+        shares = None
+        sources = [j for j in range(i) if len(nss[j]["labels"]) >= nmin]
+        if sources and draw(st.integers(0, 2)) == 0:
+            # a namespace made of Taxon OBJECTS of an earlier one (slice / subset / permutation of its taxa)
+            j = draw(st.sampled_from(sources))
+            nsrc = len(nss[j]["labels"])
+            how = draw(st.sampled_from(["slice", "subset", "all"]))
+            if how == "slice":
+                a = draw(st.integers(0, nsrc - nmin))
+                pick = list(range(a, draw(st.integers(a + nmin, nsrc))))
+            elif how == "subset":
+                pick = list(draw(st.permutations(list(range(nsrc)))))[:draw(st.integers(nmin, nsrc))]
+            else:
+                pick = list(range(nsrc))
+            shares = {"from": j, "pick": pick}
+            labels = [nss[j]["labels"][k] for k in pick]
+            n = len(labels)
+        else:
+            n = draw(st.integers(nmin, 5))
+            shared = draw(st.integers(0, 3)) == 0  # label lists of different namespaces may overlap
+            labels = draw(dataset_labels(n, "" if shared else "n%d" % i, draw(st.integers(0, 2)) == 0))
         ns = {"title": draw(st.sampled_from(_TITLES)), "labels": labels, "trees": None, "matrices": [],
-              "removed": content == "removed"}
+              "removed": content == "removed", "shares": shares}
         if content == "removed":
             content = "matrix"
         if content in ("trees", "both"):
@@ -1008,7 +1038,9 @@ def dataset_cases(draw):
         nss.append(ns)
     # order in which blocks are added to the data set (= order of the blocks of one kind in the document)
     case = {"schema": schema, "nss": nss, "matrices_first": draw(st.booleans()), "shuffle": draw(st.integers(0, 10 ** 6)),
-            "subset_carriers_first": draw(st.integers(0, 3)) > 0}
+            "subset_carriers_first": draw(st.integers(0, 3)) > 0,
+            # order in which the namespaces join the data set (a derived namespace may come before its source)
+            "ns_order": list(draw(st.permutations(list(range(nns))))) if draw(st.booleans()) else list(range(nns))}
     if schema == "nexus":
         # "default" = the option is not passed at all
         case["sbt"] = draw(st.sampled_from(["default", "default", None, False]))
@@ -1027,15 +1059,30 @@ def check_dataset(ctx, case):
     adders = []
     want_ns = []   # [(ordered labels, referenced by a block that is written)]
     to_remove = []
+    built = []
     for spec in case["nss"]:
-        ns = dendropy.TaxonNamespace(label=spec["title"])
-        taxa = {}
-        for i, l in enumerate(spec["labels"]):
-            taxa[i] = ns.new_taxon(label=l)
+        if spec.get("shares"):
+            src_taxa = built[spec["shares"]["from"]][1]
+            ns = dendropy.TaxonNamespace([src_taxa[k] for k in spec["shares"]["pick"]], label=spec["title"])
+            taxa = dict(enumerate(ns))
+            ctx.cls("dataset:namespace_shares_taxon_objects")
+        else:
+            ns = dendropy.TaxonNamespace(label=spec["title"])
+            taxa = {}
+            for i, l in enumerate(spec["labels"]):
+                taxa[i] = ns.new_taxon(label=l)
         all_labels.extend(spec["labels"])
-        ds.add_taxon_namespace(ns)
-        want_ns.append((list(spec["labels"]), not spec.get("removed")
-                        and (spec["trees"] is not None or bool(spec.get("matrices") or spec.get("matrix")))))
+        built.append((ns, taxa, (list(spec["labels"]), not spec.get("removed") and (
+            spec["trees"] is not None or bool(spec.get("matrices") or spec.get("matrix"))))))
+    for k in case.get("ns_order") or range(len(built)):
+        ds.add_taxon_namespace(built[k][0])
+        want_ns.append(built[k][2])
+    if any(sp.get("shares") for sp in case["nss"]):
+        ctx.cls("dataset:%s:with_shared_taxa" % schema)
+        pos = {k: i for i, k in enumerate(case.get("ns_order") or range(len(built)))}
+        if any(sp.get("shares") and pos[k] < pos[sp["shares"]["from"]] for k, sp in enumerate(case["nss"])):
+            ctx.cls("dataset:derived_namespace_before_source")
+    for spec, (ns, taxa, _) in zip(case["nss"], built):
         if spec["trees"] is not None:
             tl = dendropy.TreeList(taxon_namespace=ns)
             for tspec in spec["trees"]:
